@@ -97,6 +97,9 @@ const GENERATED_JSON: &[(&str, &str)] = &[
     ("entity_json", r#"{"uid": {"type": "N::U", "id": "a\u0000b"}, "attrs": {"r": {"k": {"k": {"k": {}}}}}, "parents": [], "tags": {}}"#),
     ("policy_json", r#"{"effect": "permit", "principal": {"op": "==", "entity": {"type": "U", "id": "a"}}, "action": {"op": "in", "entities": [{"type": "Action", "id": "x"}]}, "resource": {"op": "is", "entity_type": "D", "in": {"slot": "?resource"}}, "conditions": [{"kind": "when", "body": {"&&": {"left": {"has": {"left": {"Var": "principal"}, "attr": "a"}}, "right": {"like": {"left": {"Value": "x"}, "pattern": ["Wildcard", {"Literal": "y"}]}}}}}, {"kind": "unless", "body": {"if-then-else": {"if": {"Value": true}, "then": {"Set": [{"Value": 1}]}, "else": {"Record": {"k": {"ip": [{"Value": "1.2.3.4"}]}}}}}}], "annotations": {"id": "x"}}"#),
     ("policy_json", r#"{"staticPolicies": {"p": {"effect": "forbid", "principal": {"op": "All"}, "action": {"op": "All"}, "resource": {"op": "All"}, "conditions": []}}, "templates": {"t": {"effect": "permit", "principal": {"op": "==", "slot": "?principal"}, "action": {"op": "All"}, "resource": {"op": "All"}, "conditions": []}}, "templateLinks": [{"templateId": "t", "newId": "l", "values": {"?principal": {"type": "U", "id": "a"}}}]}"#),
+    ("policy_json", r#"{"effect": "permit", "principal": {"op": "All"}, "action": {"op": "All"}, "resource": {"op": "All"}, "conditions": [{"kind": "when", "body": {"&&": {"left": {"isIpv4": [{"ip": [{"Value": "1.2.3.4"}]}]}, "right": {"lessThan": [{"decimal": [{"Value": "1.0"}]}, {"decimal": [{"Value": "2.0"}]}]}}}}, {"kind": "when", "body": {"isInRange": [{"Value": {"__extn": {"fn": "ip", "arg": "10.0.0.1"}}}, {"Value": {"__extn": {"fn": "ip", "arg": "10.0.0.0/8"}}}]}}]}"#),
+    ("policy_json", r#"{"effect": "forbid", "principal": {"op": "All"}, "action": {"op": "All"}, "resource": {"op": "All"}, "conditions": [{"kind": "unless", "body": {"==": {"left": {"Value": {"__extn": {"fn": "isIpv4", "args": [{"__extn": {"fn": "ip", "arg": "1.2.3.4"}}]}}}, "right": {"Value": {"__extn": {"fn": "offset", "args": [{"__extn": {"fn": "datetime", "arg": "2024-01-01"}}, {"__extn": {"fn": "duration", "arg": "1h"}}]}}}}}}, {"kind": "when", "body": {"contains": {"left": {"Value": [{"__entity": {"type": "U", "id": "a"}}, {"k": {"__expr": "1 + 1"}}, [1, [2, [3]]]]}, "right": {"Value": {"r": {"__extn": {"fn": "decimal", "arg": "0.5"}}}}}}}]}"#),
+    ("policy_json", r#"{"effect": "permit", "principal": {"op": "in", "slot": "?principal"}, "action": {"op": "==", "entity": {"type": "Action", "id": "a"}}, "resource": {"op": "is", "entity_type": "N::D"}, "conditions": [{"kind": "when", "body": {"hasTag": {"left": {"Var": "resource"}, "right": {"Value": "k"}}}}, {"kind": "when", "body": {"getTag": {"left": {"Var": "resource"}, "right": {"Value": "k"}}}}, {"kind": "when", "body": {"is": {"left": {"Var": "principal"}, "entity_type": "U", "in": {"Value": {"__entity": {"type": "G", "id": "g"}}}}}}, {"kind": "when", "body": {"neg": {"arg": {"*": {"left": {"Value": 2}, "right": {"-": {"left": {"Value": 1}, "right": {"Unknown": {"name": "u"}}}}}}}}}, {"kind": "when", "body": {".": {"left": {"Record": {"a": {"!": {"arg": {"Value": false}}}}}, "attr": "a"}}}, {"kind": "when", "body": {"isEmpty": {"arg": {"Set": []}}}}]}"#),
     ("schema_json", r#"{"N": {"commonTypes": {"T": {"type": "Record", "attributes": {"a": {"type": "Long"}, "b": {"type": "Set", "element": {"type": "EntityOrCommon", "name": "E"}, "required": false}}}}, "entityTypes": {"E": {"memberOfTypes": ["E"], "shape": {"type": "T"}, "tags": {"type": "String"}}, "F": {"enum": ["x"]}}, "actions": {"a": {"memberOf": [{"id": "b"}], "appliesTo": {"principalTypes": ["E"], "resourceTypes": ["F"], "context": {"type": "T"}}}, "b": {}}}}"#),
 ];
 
@@ -335,7 +338,7 @@ fn unhex(s: &str) -> Vec<u8> {
 
 fn apply_fault(rng: &mut Rng, cur: &mut Vec<u8>, seeds: &[SeedDoc], original: &[u8]) -> &'static str {
     let n = cur.len();
-    match rng.below(12) {
+    match rng.below(15) {
         0 => {
             if n > 0 {
                 cur.truncate(rng.below(n));
@@ -432,7 +435,100 @@ fn apply_fault(rng: &mut Rng, cur: &mut Vec<u8>, seeds: &[SeedDoc], original: &[
             }
             "swap_bytes"
         }
+        11 | 12 | 13 => {
+            // lost update of a sub-document: a structure-aware change of a JSON document
+            if let Ok(mut v) = serde_json::from_slice::<Value>(cur) {
+                let count = json_nodes(&v);
+                let target = rng.below(count.max(1));
+                let mode = rng.below(7);
+                let mut k = 0usize;
+                let fill = rng.below(5);
+                json_mutate(&mut v, target, &mut k, mode, fill);
+                *cur = serde_json::to_vec(&v).unwrap_or_default();
+                "json_subtree_lost_or_retyped"
+            } else {
+                // not JSON: lose one token of the text instead
+                let t = rng.pick_str(TOKENS).as_bytes();
+                if let Some(pos) = cur.windows(t.len().max(1)).position(|w| w == t) {
+                    cur.drain(pos..pos + t.len());
+                }
+                "token_lost"
+            }
+        }
         _ => "none",
+    }
+}
+
+fn json_nodes(v: &Value) -> usize {
+    1 + match v {
+        Value::Array(a) => a.iter().map(json_nodes).sum::<usize>(),
+        Value::Object(m) => m.values().map(json_nodes).sum::<usize>(),
+        _ => 0,
+    }
+}
+
+/// visit nodes in document order; change the `target`-th one
+fn json_mutate(v: &mut Value, target: usize, k: &mut usize, mode: usize, fill: usize) {
+    if *k == target {
+        *k += 1;
+        let repl = [Value::Null, json!(0), json!("x"), json!([]), json!({})];
+        match (mode, &mut *v) {
+            (0, Value::Array(a)) => a.clear(),
+            (0, Value::Object(m)) => m.clear(),
+            (1, Value::Array(a)) if !a.is_empty() => {
+                a.pop();
+            }
+            (1, Value::Object(m)) if !m.is_empty() => {
+                if let Some(key) = m.keys().next().cloned() {
+                    m.remove(&key);
+                }
+            }
+            (2, Value::Array(a)) if !a.is_empty() => {
+                let x = a[0].clone();
+                a.push(x);
+            }
+            (3, Value::Object(m)) if m.len() >= 2 => {
+                // two fields swap their values
+                let keys: Vec<String> = m.keys().take(2).cloned().collect();
+                let a = m.get(&keys[0]).cloned().unwrap_or(Value::Null);
+                let b = m.get(&keys[1]).cloned().unwrap_or(Value::Null);
+                m.insert(keys[0].clone(), b);
+                m.insert(keys[1].clone(), a);
+            }
+            (4, Value::Object(m)) if !m.is_empty() => {
+                // a field is renamed to a neighbouring spelling
+                if let Some(key) = m.keys().last().cloned() {
+                    if let Some(x) = m.remove(&key) {
+                        m.insert(if key == "arg" { "args".into() } else if key == "args" { "arg".into() } else { format!("{key}s") }, x);
+                    }
+                }
+            }
+            (5, Value::String(s)) => {
+                s.push('\u{e9}');
+            }
+            (_, other) => *other = repl[fill % repl.len()].clone(),
+        }
+        return;
+    }
+    *k += 1;
+    match v {
+        Value::Array(a) => {
+            for x in a.iter_mut() {
+                if *k > target {
+                    return;
+                }
+                json_mutate(x, target, k, mode, fill);
+            }
+        }
+        Value::Object(m) => {
+            for x in m.values_mut() {
+                if *k > target {
+                    return;
+                }
+                json_mutate(x, target, k, mode, fill);
+            }
+        }
+        _ => {}
     }
 }
 
@@ -1201,7 +1297,7 @@ impl World for StorageFaults {
         out
     }
     fn rule(&self) -> &'static str {
-        "cases = (stored document, fault plan, entry point, knobs): documents are the repo's sample policies / schemas / entities / contexts / JSON policies (copied to sim/corpus), generated ones (every operator, extension calls, escapes, i64 boundaries, nesting up to 48), cedar's own protobuf encodings of them and FFI call envelopes; the quick tier first ENUMERATES every truncation point and every single-bit flip in the first 64 bytes of every document of at most 2 KiB through its native entry point, then samples 1-4 faults per case (torn write, bit flip, token overwrite/insert, zero range, duplicate range, drop range, splice with another document, lost write, invalid UTF-8, byte swap, wrong-format delivery) plus reader faults (short reads, EINTR, hard error at byte k) and writer faults; each case runs parse -> {print, to_json, to_pst, proto round trip, format at 3 widths, validate strict/permissive/level, authorize 3 requests, link templates} or renders the error (Display, Debug, help, labels, miette graphical/narratable/JSON with source) in a crash-isolated worker process; non-trivial = case whose faulted document was still accepted by its entry point (so post-parse stages ran); distinct by hash of (entry point, faulted bytes)"
+        "cases = (stored document, fault plan, entry point, knobs): documents are the repo's sample policies / schemas / entities / contexts / JSON policies (copied to sim/corpus), generated ones (every operator, extension calls, escapes, i64 boundaries, nesting up to 48), cedar's own protobuf encodings of them and FFI call envelopes; the quick tier first ENUMERATES every truncation point and every single-bit flip in the first 64 bytes of every document of at most 2 KiB through its native entry point, then samples 1-4 faults per case (torn write, bit flip, token overwrite/insert/loss, structure-aware loss or retyping of a JSON sub-document, zero range, duplicate range, drop range, splice with another document, lost write, invalid UTF-8, byte swap, wrong-format delivery) plus reader faults (short reads, EINTR, hard error at byte k) and writer faults; each case runs parse -> {print, to_json, to_pst, proto round trip, format at 3 widths, validate strict/permissive/level, authorize 3 requests, link templates} or renders the error (Display, Debug, help, labels, miette graphical/narratable/JSON with source) in a crash-isolated worker process; non-trivial = case whose faulted document was still accepted by its entry point (so post-parse stages ran); distinct by hash of (entry point, faulted bytes)"
     }
     fn real_components(&self) -> Vec<&'static str> {
         vec!["every text/JSON/protobuf/FFI entry point of cedar_policy listed in DESIGN.md 4.6", "formatter, validator, authorizer, template linking, printers and converters on whatever parsed", "error rendering through miette (graphical, narratable, JSON) with source code attached", "impl Read / impl Write entry points (from_json_file, from_cedarschema_file, write_to_json)"]
